@@ -27,6 +27,10 @@ def gen(tier, rng, scale):
     trng = rng.fork("two-events")
     for _ in range((40 if tier == "quick" else 800) * scale):
         cases.append({"items": E.gen_history(trng, grammar=True), "layout": [trng.chance(1, 2), trng.chance(1, 2), True, True, "std", trng.choice([0, 1, 1])]})
+    # recordings written without sample_id_all (a legal, older encoding): FORK and EXIT carry their time in the record body, COMM / MMAP2 records none
+    nrng = rng.fork("no-id-all")
+    for _ in range((30 if tier == "quick" else 600) * scale):
+        cases.append({"items": E.gen_history(nrng, grammar=True), "layout": [nrng.chance(1, 2), nrng.chance(1, 2), True, True, "std", None, True]})
     return cases
 
 
